@@ -1,6 +1,7 @@
 import Driver.Tree
 import Driver.FsDrv
 import Driver.TableDrv
+import Driver.ManifestDrv
 /-
   Driver.Main — `lsmdrv`: one request per line on stdin, one canonical answer per line on stdout.
   The answers are computed by the very definitions the theorems in `LsmModel/Props` are about.
@@ -164,7 +165,7 @@ where handlePure (cmd : String) (a : List (String × String)) : String :=
     | "prefix" => fnPrefix a
     | "memtable" => fnMemtable a
     | "vt" => fnVt a
-    | _ => (handleTableCmd cmd a).getD (bad ("unknown-command " ++ cmd))
+    | _ => ((handleTableCmd cmd a).orElse (fun _ => handleManifestCmd cmd a)).getD (bad ("unknown-command " ++ cmd))
 
 def handle (s : DS) (line : String) : DS × String :=
   match line.trimAscii.toString.splitOn " " with
